@@ -8,11 +8,25 @@ Answer keys: edge_type[y][x], row-major (h*w bools); True = "\\" (joins point (y
 point (y, x+1) with (y+1, x)) - the convention stated in gokigen.py ("false: /, true: \\") and used by its printer.
 Well-formed = every point value in {-1, 0, 1, 2, 3, 4}; a clue larger than the number of cells around its point is a
 legal, unsolvable, problem.
+
+Shapes: (h, w) = the small ladder x all layouts with <= k clues (cap rule), answered by filtering the cached list of all
+loop-free slant grids; ("large", h, w, level) = larger boards with a small fixed set of instances (empty board where it can
+be enumerated, dense clue sets derived from rule-obeying grids, thinned and perturbed), answered by search() - an exact
+cell-by-cell search with clue pruning and an incremental union-find for the loop rule; selftest() compares both.
 """
 
 from . import base
 
 _CAND = {}
+_LARGE = {}
+_SOLS = {}
+LIMIT = 400000  # search() refuses to return more answers than this (harness error, never a verdict)
+DENSE_CAP = 3000  # a derived instance with more answers than this is not used (the board is too loosely clued)
+NODE_CAP = 150000  # ... nor one whose search tree is larger than this
+
+
+class TooMany(RuntimeError):
+    pass
 
 
 def diagonal(y, x, backslash):
@@ -52,6 +66,191 @@ def candidates(h, w):
     return _CAND[(h, w)]
 
 
+def search(h, w, prob, limit=LIMIT, max_nodes=0, prefer=None, first_only=False):
+    """All slant grids (True = backslash) obeying the rules for the clue table prob, as row-major tuples.
+
+    Cells are filled in row-major order (trying prefer[i] first when given).  A diagonal whose two end points are
+    already joined by earlier diagonals would close a loop and is refused (union-find over the lattice points, undone on
+    backtracking).  After every cell the clues on its four corners are tested: diagonals ending there so far <= clue <=
+    that number + cells around the point not filled yet.  Only partial grids without a rule-obeying completion are cut,
+    so the enumeration is complete."""
+    n = h * w
+    W = w + 1
+    parent = list(range((h + 1) * W))
+    size = [1] * len(parent)
+    deg = [0] * len(parent)
+    left = [len([1 for cy in (py - 1, py) for cx in (px - 1, px) if 0 <= cy < h and 0 <= cx < w]) for py in range(h + 1) for px in range(W)]
+    clue = [prob[py][px] for py in range(h + 1) for px in range(W)]
+    col = [None] * n
+    out = []
+    nodes = [0]
+
+    def find(a):
+        while parent[a] != a:
+            a = parent[a]
+        return a
+
+    class Done(Exception):
+        pass
+
+    def rec(i):
+        if i == n:
+            if len(out) >= limit:
+                raise TooMany("gokigen oracle: more than %d answers on %dx%d" % (limit, h, w))
+            out.append(tuple(col))
+            if first_only:
+                raise Done()
+            return
+        nodes[0] += 1
+        if max_nodes and nodes[0] > max_nodes:
+            raise TooMany("gokigen oracle: search budget exceeded on %dx%d" % (h, w))
+        y, x = divmod(i, w)
+        corners = (y * W + x, y * W + x + 1, (y + 1) * W + x, (y + 1) * W + x + 1)
+        first = bool(prefer[i]) if prefer is not None else False
+        for v in (first, not first):
+            a, b = (corners[0], corners[3]) if v else (corners[1], corners[2])
+            ra, rb = find(a), find(b)
+            if ra == rb:
+                continue  # closes a loop
+            if size[ra] < size[rb]:
+                ra, rb = rb, ra
+            parent[rb] = ra
+            size[ra] += size[rb]
+            deg[a] += 1
+            deg[b] += 1
+            for c in corners:
+                left[c] -= 1
+            col[i] = v
+            if all(clue[c] < 0 or deg[c] <= clue[c] <= deg[c] + left[c] for c in corners):
+                rec(i + 1)
+            col[i] = None
+            for c in corners:
+                left[c] += 1
+            deg[a] -= 1
+            deg[b] -= 1
+            size[ra] -= size[rb]
+            parent[rb] = rb
+
+    try:
+        rec(0)
+    except Done:
+        pass
+    return out
+
+
+def full_clues(h, w, col):
+    deg = [[0] * (w + 1) for _ in range(h + 1)]
+    for i in range(h * w):
+        for py, px in diagonal(i // w, i % w, col[i]):
+            deg[py][px] += 1
+    return deg
+
+
+def patterns(h, w):
+    """Loop-free grids near a few hand-made patterns: the first grid of the search that prefers the pattern's diagonal
+    in every cell (a backslash never closes a loop in row-major order, so this is a greedy repair)."""
+    pats = [
+        lambda y, x: (y + x) % 2 == 0,  # checkerboard: diamonds (loops) wherever not repaired, clues 4 and 0
+        lambda y, x: y % 2 == 0,  # zigzag rows
+        lambda y, x: (y // 2 + x // 2) % 2 == 0,  # 2x2 blocks
+        lambda y, x: (y + x) % 2 == 1,
+        lambda y, x: x % 2 == 1,  # zigzag columns
+        lambda y, x: (y + 2 * x) % 3 == 0,
+        lambda y, x: False,  # all slash
+        lambda y, x: True,  # all backslash
+    ]
+    empty = [[-1] * (w + 1) for _ in range(h + 1)]
+    out = []
+    for f in pats:
+        g = search(h, w, empty, prefer=[f(y, x) for y in range(h) for x in range(w)], first_only=True)[0]
+        if g not in out:
+            out.append(g)
+    return out
+
+
+def spaced(items, k):
+    """First, last and evenly spaced elements (k in total, fewer when there are fewer items)."""
+    if len(items) <= k:
+        return list(items)
+    return [items[(len(items) - 1) * j // (k - 1)] for j in range(k)]
+
+
+def variants(full, level):
+    """Clue tables derived from a complete clue table: complete, thinned, and with one clue off by one (on the complete
+    table, where the change nearly always makes the board unsolvable, and on thinned tables, where it often does not)."""
+    hh, ww = len(full), len(full[0])
+    n = hh * ww
+
+    def table(keep, pos=None, d=0):
+        t = [[full[y][x] if (keep(y * ww + x) or y * ww + x == pos) else -1 for x in range(ww)] for y in range(hh)]
+        if pos is not None:
+            v = full[pos // ww][pos % ww]
+            if not 0 <= v + d <= 4:
+                d = -d
+            t[pos // ww][pos % ww] = v + d
+        return t
+
+    everything = lambda i: True  # noqa: E731
+    last, mid, first, topright, botleft = n - 1, n // 2, 0, ww - 1, (hh - 1) * ww
+    lastcol, lastrow = (hh // 2) * ww + ww - 1, n - 1 - ww // 2
+    out = [
+        table(everything),
+        table(lambda i: i % 2 != 0),
+        table(lambda i: i % 3 != 1),
+        table(lambda i: i % 4 != 2),
+        table(everything, last, 1),
+        table(lambda i: i % 2 != 0, mid, 1),
+        table(lambda i: i % 3 != 1, lastcol, -1),
+    ]
+    if level > 0:
+        out += [
+            table(lambda i: i % 3 != 0),
+            table(lambda i: i % 2 != 1),
+            table(lambda i: i % 3 == 1),
+            table(lambda i: i % 4 == 3),
+            table(lambda i: i % 5 == 2),
+            table(everything, first, 1),
+            table(everything, topright, -1),
+            table(everything, mid, -1),
+            table(lambda i: i % 3 != 1, lastrow, 1),
+            table(lambda i: i % 2 != 0, botleft, 1),
+            table(lambda i: i % 4 != 2, last, -1),
+            table(lambda i: i % 2 != 1, lastcol, 1),
+        ]
+    return out
+
+
+def large_instances(h, w, level):
+    """The fixed instance set of a large board (cached: the driver asks for it once per shard)."""
+    key = (h, w, level)
+    if key in _LARGE:
+        return _LARGE[key]
+    empty = [[-1] * (w + 1) for _ in range(h + 1)]
+    out = []
+    grids = patterns(h, w)
+    if h * w <= 16:
+        out.append(empty)  # the clue-free board, and a lone clue on the far corner / last row / last column
+        for py, px, v in ((h, w, 1), (h, w // 2, 2), (h // 2, w, 0), (h, w, 0), (h, w, 2))[: 1 if level == 0 else 5]:
+            t = [row[:] for row in empty]
+            t[py][px] = v
+            out.append(t)
+        grids = spaced(search(h, w, empty), 6)[1:-1] + grids  # first = all slash, last = all backslash: in patterns()
+    # one grid per board on the quick tier (rotating through the list with the board size), three on the thorough tier
+    r = (h + 2 * w) % len(grids)
+    chosen = [grids[r]] if level == 0 else [grids[(r + j * max(1, len(grids) // 3)) % len(grids)] for j in range(3)]
+    for g in chosen:
+        for t in variants(full_clues(h, w, g), level):
+            if t in out:
+                continue
+            try:
+                _SOLS[repr(t)] = search(h, w, t, DENSE_CAP, NODE_CAP)
+            except TooMany:
+                continue
+            out.append(t)
+    _LARGE[key] = [{"height": h, "width": w, "problem": t} for t in out]
+    return _LARGE[key]
+
+
 class Gokigen(base.Rule):
     name = "gokigen"
 
@@ -59,9 +258,16 @@ class Gokigen(base.Rule):
         s = [(1, 1), (1, 2), (2, 1), (1, 3), (3, 1), (2, 2), (2, 3), (3, 2), (3, 3)]
         if tier != "quick":
             s += [(1, 4), (4, 1), (2, 4), (4, 2), (3, 4), (4, 3)]
-        return s
+        big = [(5, 5), (6, 6), (4, 6), (6, 4), (1, 12), (12, 1), (2, 10), (10, 2)]
+        if tier != "quick":
+            big = [(4, 4)] + big + [(4, 5), (5, 4), (5, 6), (6, 5), (7, 7), (3, 8), (8, 3), (1, 16), (16, 1), (2, 12), (12, 2), (5, 8), (8, 5)]
+        return s + [("large", h, w, 0 if tier == "quick" else 1) for h, w in big]
 
     def instances(self, shape, cap):
+        if shape[0] == "large":
+            for p in large_instances(shape[1], shape[2], shape[3]):
+                yield p
+            return
         h, w = shape
         lays, k = base.layouts((h + 1) * (w + 1), -1, [0, 1, 2, 3, 4], cap)
         for pts in lays:
@@ -75,6 +281,9 @@ class Gokigen(base.Rule):
 
     def readings(self, p):
         h, w = p["height"], p["width"]
+        if h * w > 12:
+            key = repr(p["problem"])  # answers computed while the instance set was built (same function)
+            return [_SOLS[key] if key in _SOLS else search(h, w, p["problem"])]
         clues = []
         for py in range(h + 1):
             for px in range(w + 1):
@@ -93,6 +302,37 @@ class Gokigen(base.Rule):
             [-1, 3, -1, 3, 2, -1, 3, -1], [-1, -1, 1, -1, -1, 1, -1, -1], [-1, 3, -1, -1, 3, -1, 3, -1], [-1, -1, -1, -1, -1, -1, -1, -1],
         ]
         return {"height": 7, "width": 7, "problem": prob}, "cspuz/puzzle/gokigen.py _main() (puzsq pid=7862, 7x7; checked by solvability only: too large to enumerate)"
+
+
+def brute(h, w, prob):
+    """The small-board oracle (filter of all loop-free grids), for selftest()."""
+    clues = [(py * (w + 1) + px, prob[py][px]) for py in range(h + 1) for px in range(w + 1) if prob[py][px] >= 0]
+    return [col for col, deg in candidates(h, w) if all(deg[k] == c for k, c in clues)]
+
+
+def selftest():
+    """search() against the brute-force filter: clue-free boards, every single clue, and the dense family."""
+    for h, w in ((1, 1), (1, 2), (2, 1), (1, 5), (5, 1), (2, 2), (2, 3), (3, 2), (3, 3), (2, 5), (5, 2), (3, 4), (4, 3), (4, 4)):
+        empty = [[-1] * (w + 1) for _ in range(h + 1)]
+        tables = [empty]
+        for py in range(h + 1):
+            for px in range(w + 1):
+                for v in range(5):
+                    t = [row[:] for row in empty]
+                    t[py][px] = v
+                    tables.append(t)
+        allc = [col for col, deg in candidates(h, w)]
+        for g in spaced(allc, 4) + patterns(h, w)[:3]:
+            assert acyclic(h, w, g)
+            tables += variants(full_clues(h, w, g), 1)
+        for t in tables:
+            assert sorted(search(h, w, t)) == sorted(brute(h, w, t)), (h, w, t)
+    for g in patterns(6, 6) + patterns(4, 7):
+        hh, ww = (6, 6) if len(g) == 36 else (4, 7)
+        assert acyclic(hh, ww, g) and search(hh, ww, full_clues(hh, ww, g)) == [g]  # a complete clue table fixes the grid
+    # the published 7x7 example has exactly one answer (as a published puzzle must)
+    ex = RULE.example()[0]
+    assert len(search(7, 7, ex["problem"])) == 1
 
 
 RULE = Gokigen()
